@@ -13,7 +13,9 @@ import (
 	"strings"
 	"sync"
 	"sync/atomic"
+	"time"
 
+	"github.com/richiefi/rrrouter/caching"
 	"github.com/richiefi/rrrouter/config"
 	"github.com/richiefi/rrrouter/proxy"
 	"github.com/richiefi/rrrouter/server"
@@ -59,11 +61,26 @@ const swapPinnedRuns = 20
 // b.test. The reload to version 2 happens while o.test is answering. The followed hop belongs to the same client
 // request and must still be handled under version 1; the next request must see version 2.
 func pinnedRun() (mixed int64, stale int64, err error) {
-	doc := func(v string) []byte {
-		return []byte(`{"rules":[{"path":"/old","destination":"http://o.test/","restart_on_redirect":true,"request_headers":{"X-Req":"o"}},` +
-			`{"path":"/next","destination":"http://` + v + `.test/","request_headers":{"X-Req":"` + v + `"}}]}`)
-	}
 	for i := 0; i < swapPinnedRuns; i++ {
+		// every other run the followed hop goes through a cache-enabled rule (and misses): the fill path has its own call
+		// into the router
+		cached := i%2 == 1
+		doc := func(v string) []byte {
+			c := ""
+			if cached {
+				c = `"cache":"c1",`
+			}
+			return []byte(`{"rules":[{"path":"/old","destination":"http://o.test/","restart_on_redirect":true,"request_headers":{"X-Req":"o"}},` +
+				`{"path":"/next",` + c + `"destination":"http://` + v + `.test/","request_headers":{"X-Req":"` + v + `"}}]}`)
+		}
+		var cache caching.Cache
+		if cached {
+			dir, e := ioutil.TempDir(tmpRoot(), "hxswap")
+			if e != nil {
+				return 0, 0, e
+			}
+			cache = caching.NewCacheWithOptions([]caching.StorageConfiguration{{Size: 1 << 30, Path: dir, Id: "c1"}}, discardLogger, time.Now)
+		}
 		v1, e := proxy.ParseRules(doc("a"), discardLogger)
 		if e != nil {
 			return 0, 0, e
@@ -78,7 +95,7 @@ func pinnedRun() (mixed int64, stale int64, err error) {
 		}}
 		router = proxy.NewRouterWithPerformer(v1, discardLogger, conf, perf)
 		mux := http.NewServeMux()
-		server.ConfigureServeMux(mux, conf, router, discardLogger, nil)
+		server.ConfigureServeMux(mux, conf, router, discardLogger, cache)
 		ts := httptest.NewServer(mux)
 		get := func(p string) string {
 			resp, e := http.Get(ts.URL + p)
